@@ -81,6 +81,16 @@ def linkVal (l : Option (List Char)) : Option (List Char) := if strTruthy l then
 def storedLink (v : StyleVariant) (l : Option (List Char)) : Option (List Char) :=
   if v.emptyLink then l else linkVal l
 
+/-- Whatever the variant, a stored link that is some `l` is the link that was given. -/
+theorem storedLink_some {v : StyleVariant} {x : Option (List Char)} {l : List Char}
+    (h : storedLink v x = some l) : x = some l := by
+  unfold storedLink linkVal at h
+  split at h
+  · exact h
+  · split at h
+    · exact h
+    · cases h
+
 /-- The tuple `__init__` hashes, recomputed from the current fields. -/
 def fieldsKey (s : Style) : HashKey :=
   ⟨s.color, s.bgcolor, some s.attributes, some s.setAttributes, s.link⟩
@@ -202,6 +212,10 @@ def updateLink (v : StyleVariant) (s : Style) (link : Option (List Char)) : Styl
             else ⟨s.color, s.bgcolor, some s.attributes, some s.setAttributes, link⟩,
     isNull := false,
     styleDef := if v.updateLinkDef then s.styleDef else none }
+
+theorem updateLink_link_some {v : StyleVariant} {s : Style} {x : Option (List Char)} {l : List Char}
+    (h : (updateLink v s x).link = some l) : x = some l :=
+  storedLink_some h
 
 /-- `Style.without_color` (style.py:386-402). -/
 def withoutColor (v : StyleVariant) (s : Style) : Style :=
